@@ -141,10 +141,7 @@ func processBag(
 		headerlen := binary.LittleEndian.Uint32(buf[:4])
 
 		// header
-		if len(header) < int(headerlen) {
-			header = make([]byte, headerlen*2)
-		}
-		_, err = io.ReadFull(activeReader, header[:headerlen])
+		header, err = readSized(activeReader, header, headerlen)
 		if err != nil {
 			return err
 		}
@@ -170,18 +167,12 @@ func processBag(
 
 		if opcode[0] == OpBagChunk {
 			// data
-			if len(chunkData) < int(datalen) {
-				chunkData = make([]byte, datalen*2)
-			}
-			_, err = io.ReadFull(activeReader, chunkData[:datalen])
+			chunkData, err = readSized(activeReader, chunkData, datalen)
 			if err != nil {
 				return err
 			}
 		} else {
-			if len(data) < int(datalen) {
-				data = make([]byte, datalen*2)
-			}
-			_, err = io.ReadFull(activeReader, data[:datalen])
+			data, err = readSized(activeReader, data, datalen)
 			if err != nil {
 				return err
 			}
@@ -230,6 +221,31 @@ func processBag(
 		}
 	}
 	return nil
+}
+
+// readSized reads n bytes from r into buf, growing buf when it is too small. The length n comes
+// from the file and is not trusted: the buffer grows as data actually arrives (at most 1 MiB ahead
+// of it) instead of being allocated up front, and the doubling of a 32-bit length cannot overflow.
+// The returned slice has at least n valid bytes.
+func readSized(r io.Reader, buf []byte, n uint32) ([]byte, error) {
+	if uint64(len(buf)) >= uint64(n) {
+		_, err := io.ReadFull(r, buf[:n])
+		return buf, err
+	}
+	const step = 1 << 20
+	out := buf[:0]
+	for uint64(len(out)) < uint64(n) {
+		m := uint64(n) - uint64(len(out))
+		if m > step {
+			m = step
+		}
+		start := len(out)
+		out = append(out, make([]byte, m)...)
+		if _, err := io.ReadFull(r, out[start:]); err != nil {
+			return out, err
+		}
+	}
+	return out, nil
 }
 
 func channelIDForConnection(connID uint32) (uint16, error) {
